@@ -515,6 +515,14 @@ pub fn units(tier: Tier) -> Vec<PrattUnit> {
     v
 }
 
+/// C07's share: the spans handed to operator fold callbacks (prefix, postfix, infix; Vec, tuple and boxed
+/// tables) are rendered into every node of the tree that is compared, so a smaller sweep of the same
+/// engine decides "the span of the sub-expression being built".
+pub fn units_spans(tier: Tier) -> Vec<PrattUnit> {
+    let q = tier == Tier::Quick;
+    vec![PrattUnit { name: "pratt-fold-spans-upto2-3sym-2pow".into(), nsym: 3, npow: 2, ks: vec![1, 2], len: if q { 5 } else { 7 } }]
+}
+
 pub fn replay(v: &Value) -> Result<Option<String>, String> {
     let t: Vec<Op> = v["table"].as_str().ok_or("no table")?.split_whitespace().map(|s| Op::parse(s).ok_or_else(|| format!("bad op {s}"))).collect::<Result<_, _>>()?;
     let input = v["input"].as_str().ok_or("no input")?.to_string();
